@@ -118,6 +118,7 @@ def run_gb(c, it, a, k):
 
     rec = GBCall()
     rec.in_names, rec.kwargs = names, func_kwargs
+    rec.target_names = list(target_names)
     c.gb_calls = getattr(c, "gb_calls", [])
     c.gb_calls.append(rec)
 
@@ -421,6 +422,11 @@ def _block_for(c, it, name, z, grids, coords):
     origin = lambda loc, starts=starts, name=name: (name, tuple(s + l for s, l in zip(starts, loc)))
     blk = SymBlock(shape, z.dtype, origin, f"block:{name}")
     blk.agg = dict(src=name, box=tuple((s0, s0 + e) for s0, e in zip(starts, shape)), cond=[])
+    ea = getattr(c, "eagg", {}).get(name)
+    if ea is not None:
+        ax, s0 = ea["axis"], starts[ea["axis"]]
+        # the provenance function may use the start of the block the element lies in (second argument)
+        blk.pagg = dict(axis=ax, f=(lambda l, f=ea["f"], s0=s0: f(s0 + l, s0)), cond=[])
     return blk
 
 
